@@ -308,8 +308,38 @@ pub fn ticks(seed: u64, stride: i32, random_queries: usize, lo: i32, hi: i32, ou
         out.emit(json!({"k": "ticks", "start": start, "prices": prices, "next": next, "queries": q}), true, format!("run{}", start / 4096));
         i = j + 1;
     }
-    // random interior queries: each carries the prices of the answered tick and its successor
+    // structured interior queries (in the shard that holds tick 0): sqrt-prices whose binary form is special for the log2 bit-walk of
+    // the inverse conversion - powers of two, a power of two plus / minus every smaller power of two (and one unit either side):
+    // all-ones mantissas, single low bits, carries out of the mantissa normalisation
     let mut qs = vec![];
+    if lo <= 0 && hi >= 0 {
+        let mut ps: Vec<u128> = vec![];
+        for k in 32u32..=96 {
+            let base = 1u128 << k;
+            for j in 0..k {
+                let d = 1u128 << j;
+                for dd in [d.saturating_sub(1), d, d + 1] {
+                    ps.push(base - dd);
+                    ps.push(base + dd);
+                }
+            }
+            ps.push(base);
+        }
+        ps.retain(|p| *p >= MIN_SQRT_PRICE && *p <= MAX_SQRT_PRICE);
+        ps.sort();
+        ps.dedup();
+        for (n, p) in ps.iter().enumerate() {
+            let t = tick_index_from_sqrt_price(p);
+            let pt = sqrt_price_from_tick_index(t.clamp(MIN_TICK, MAX_TICK));
+            let pn = if t < MAX_TICK { sqrt_price_from_tick_index((t + 1).clamp(MIN_TICK, MAX_TICK)) } else { 0 };
+            qs.push(json!([nu(*p), t, nu(pt), nu(pn)]));
+            if qs.len() == 256 {
+                out.emit(json!({"k": "pqueries", "q": qs}), true, format!("pow2q{}", n / 4096));
+                qs = vec![];
+            }
+        }
+    }
+    // random interior queries: each carries the prices of the answered tick and its successor
     for n in 0..random_queries {
         let p = match n % 4 {
             0 => MIN_SQRT_PRICE + (r.gen::<u128>() % 1_000_000),
@@ -688,6 +718,44 @@ pub fn sdkconv(seed: u64, n: usize, stride: i32, out: &mut Out) {
     }
     if !chunk.is_empty() {
         out.emit(json!({"k": "sdk_ticks", "rows": chunk}), true, "st".into());
+    }
+    // ---- price -> tick at sqrt-prices that are special for the log2 bit-walk (powers of two plus / minus every smaller power of
+    // two, one unit either side): rows of three prices each, in the format of the sweep above
+    {
+        let mut ps: Vec<u128> = vec![];
+        for k in 32u32..=96 {
+            let base = 1u128 << k;
+            for j in 0..k {
+                let d = 1u128 << j;
+                for dd in [d.saturating_sub(1), d, d + 1] {
+                    ps.push(base - dd);
+                    ps.push(base + dd);
+                }
+            }
+            ps.push(base);
+        }
+        ps.retain(|p| *p >= MIN_SQRT_PRICE && *p <= MAX_SQRT_PRICE);
+        ps.sort();
+        ps.dedup();
+        while ps.len() % 3 != 0 {
+            ps.push(*ps.last().unwrap());
+        }
+        let mut chunk: Vec<Value> = vec![];
+        for tri in ps.chunks(3) {
+            let mut row = vec![json!(tick_index_from_sqrt_price(&tri[0])), json!(true)];
+            for q in tri {
+                let a = tick_index_from_sqrt_price(q);
+                let b: i32 = sdk::sqrt_price_to_tick_index((*q).into());
+                row.push(json!(a == b));
+            }
+            chunk.push(Value::Array(row));
+            if chunk.len() == 512 {
+                out.emit(json!({"k": "sdk_ticks", "rows": std::mem::take(&mut chunk)}), true, "stpow2".into());
+            }
+        }
+        if !chunk.is_empty() {
+            out.emit(json!({"k": "sdk_ticks", "rows": chunk}), true, "stpow2".into());
+        }
     }
     // ---- amount deltas, next prices, token estimates, slippage
     for _ in 0..n {
